@@ -146,6 +146,17 @@ def translate_next_channel(transport_cls):
                 for t in targets:
                     if isinstance(t, _ast.Attribute) and t.attr == "_channel_counter" and fn.name not in writers:
                         writers.append(fn.name)
+    try:
+        from pv import lib_lockdisc
+        from pv.core import REPO
+        dels = [(d["func"], bool(d["safe"])) for d in lib_lockdisc.channel_map_deletes(REPO)]
+    except Exception:  # noqa — the table is then empty and the theorem about it fails (a broken tie, not a crash)
+        dels = []
+    out.append("/-- every `self._channels.delete(…)` in transport.py: (method, ok = inside _unlink_channel or guarded by")
+    out.append("    `if chanid in self.channel_events` — an open that is still pending) -/")
+    out.append("def mapDeletes : List (String × Bool) := [%s]" % ", ".join('("%s", %s)' % (f, "true" if k else "false")
+                                                                         for f, k in dels))
+    out.append("")
     out.append("/-- the methods of class Transport that assign `self._channel_counter` -/")
     out.append("def counter_writers : List String := [%s]" % ", ".join('"%s"' % w for w in writers))
     out.append("")
